@@ -557,6 +557,13 @@ func (g *Gen) exec(in ssa.Instruction) {
 		g.vals[x] = g.convert(g.val(x.X), x.Type(), x.Pos())
 	case *ssa.ChangeType:
 		v := g.val(x.X)
+		if fs, ok := x.X.Type().Underlying().(*types.Struct); ok && v.Addr == nil {
+			if ts, ok := x.Type().Underlying().(*types.Struct); ok && g.sortOf(x.X.Type()) != g.sortOf(x.Type()) && fs.NumFields() == ts.NumFields() {
+				// conversion between two struct types with identical fields: rebuild the value field by field
+				g.vals[x] = Val{T: x.Type(), S: g.define("conv", g.sortOf(x.Type()), g.convStruct(x.X.Type(), x.Type(), v.S))}
+				return
+			}
+		}
 		g.vals[x] = Val{T: x.Type(), S: v.S, Addr: v.Addr, C: v.C}
 	case *ssa.ChangeInterface:
 		v := g.val(x.X)
@@ -641,6 +648,24 @@ func (g *Gen) exec(in ssa.Instruction) {
 			g.vals[v] = g.havocVal(v.Type(), "unsup")
 		}
 	}
+}
+
+// convStruct converts a struct value between two struct types whose fields correspond one to one.
+func (g *Gen) convStruct(from, to types.Type, term string) string {
+	fs, ts := from.Underlying().(*types.Struct), to.Underlying().(*types.Struct)
+	fsort, tsort := g.structSort(from), g.structSort(to)
+	if fs.NumFields() == 0 {
+		return "mk." + tsort
+	}
+	var parts []string
+	for i := 0; i < ts.NumFields(); i++ {
+		sel := fmt.Sprintf("(%s.%s %s)", fsort, sanitize(fs.Field(i).Name()), term)
+		if _, nested := ts.Field(i).Type().Underlying().(*types.Struct); nested && g.sortOf(fs.Field(i).Type()) != g.sortOf(ts.Field(i).Type()) {
+			sel = g.convStruct(fs.Field(i).Type(), ts.Field(i).Type(), sel)
+		}
+		parts = append(parts, sel)
+	}
+	return "(mk." + tsort + " " + strings.Join(parts, " ") + ")"
 }
 
 func (g *Gen) nonNil(p Val, pos token.Pos, text string) {
